@@ -292,12 +292,17 @@ End WithInt.
 Lemma repeat_len_exact I (n : T I) len : canonical I n = true -> 0 <= len <= max_int64 ->
   repeat_len I len n =
     if len =? 0 then Ok 0
-    else if negb (in_int32 (value I n)) then Err
     else if value I n <? 1 then Ok 0
+    else if negb (in_int32 (value I n)) then Err
     else if maxAlloc <=? len * value I n then Err else Ok (len * value I n).
 Proof.
   intros Hn Hl. unfold repeat_len. destruct (len =? 0) eqn:L0; [reflexivity|].
-  rewrite (AsInt32_ok I n Hn). destruct (in_int32 (value I n)) eqn:R; [|reflexivity]. cbn [negb].
+  rewrite (AsInt32_ok I n Hn), (Sign_ok I n Hn). unfold sign_of.
+  destruct (in_int32 (value I n)) eqn:R; cbn [negb].
+  2: { destruct (value I n <? 0) eqn:N.
+       - assert (L1 : (value I n <? 1) = true) by lia. rewrite L1. reflexivity.
+       - assert (L1 : (value I n <? 1) = false) by (rng; lia). rewrite L1.
+         destruct (value I n =? 0); reflexivity. }
   set (i := value I n) in *. destruct (i <? 1) eqn:P; [reflexivity|]. cbv zeta.
   rewrite (wrapu64_id len) by (rng; lia). rewrite (wrapu64_id i) by (rng; lia).
   destruct (Z_lt_le_dec (len * i) 18446744073709551616) as [B|B].
